@@ -57,7 +57,7 @@ struct VfRun {
   // streams whose audio is not granule-consistent with the reference model: page damage, or the 64-sample-block header rewrite
   // (the bundled encoder cannot emit 64-sample short blocks; the header-rewritten link decodes safely but its granule positions do not
   //  match its audio, so nothing position-exact is demanded of it - see DESIGN C20)
-  bool inexact() const { return sr.damaged || sr.ambiguous_cut || sr.has_bs64; }
+  bool inexact() const { return sr.damaged || sr.ambiguous_cut || sr.bs64_rewritten; }
   // ---- verdicts
   bool mine(std::initializer_list<const char *> props) { for (auto p : props) if (prop == p) return true; return false; }
   [[noreturn]] void fail(const std::string &site, const std::string &sym, const std::string &detail, std::map<std::string, std::string> facts = {}) {
@@ -92,11 +92,12 @@ struct VfRun {
     if (ib > 0 && !H.sf.seekable) { ib = (int)std::min<size_t>((size_t)ib, sr.bytes.size()); initial.assign(sr.bytes.begin(), sr.bytes.begin() + ib); H.sf.pos = ib; }
     else ib = 0;
     long r;
-    if (how == 2) {
+    if (how == 2 || how == 3) {
       cookie_io_functions_t io = {ck_read, nullptr, ck_seek, ck_close};
       H.sf.read_faults_only = true;
       H.fp = fopencookie(&H.sf, "rb", io); setvbuf(H.fp, nullptr, _IOFBF, (size_t)std::max<int64_t>(16, f.i("stdiobuf", 512)));
-      r = ov_open(H.fp, H.vf, ib ? initial.data() : nullptr, ib);
+      if (how == 2) r = ov_open(H.fp, H.vf, ib ? initial.data() : nullptr, ib);
+      else { r = ov_test(H.fp, H.vf, ib ? initial.data() : nullptr, ib); if (r == 0) { H.part = true; if (!op.i("notestopen", 0)) { r = ov_test_open(H.vf); H.part = false; if (r) H.open = false; } } }   // the two-stage open over stdio
       if (r) { H.sf.n_close = 0; }   // caller still owns FILE; we leave it (closing it is the caller's business, not counted)
     } else if (how == 1) {
       r = ov_test_callbacks(&H.sf, H.vf, ib ? initial.data() : nullptr, ib, cb);
@@ -105,7 +106,7 @@ struct VfRun {
       r = ov_open_callbacks(&H.sf, H.vf, ib ? initial.data() : nullptr, ib, cb);
     }
     if (r == 0 && !H.part) { H.open = true; H.ever_ok = true; }
-    if (r == 0) H.expect_close = (f.i("noclosefn", 0) && how != 2) ? 0 : 1;   // ov_open installs its own fclose callback
+    if (r == 0) H.expect_close = (f.i("noclosefn", 0) && how != 2 && how != 3) ? 0 : 1;   // ov_open / ov_test install their own fclose callback
     return r;
   }
 
@@ -202,6 +203,8 @@ void VfRun::expected_int(const float *const *chan, int nch, int64_t off, int fra
   lo.clear(); hi.clear();
   for (int j = 0; j < frames; j++) for (int c = 0; c < nch; c++) {
     double y = (double)(chan[c][off + j] * gain) * (word == 1 ? 128.0 : 32768.0);
+    if (std::isnan(y)) y = 0;   // not a number: nothing to round or clip; the comparison skips these (nan_at)
+    if (y > 1e12) y = 1e12; if (y < -1e12) y = -1e12;   // infinities and the like clip
     double fl = floor(y); long a, b;
     if (y - fl == 0.5) { a = (long)fl; b = (long)fl + 1; } else { a = b = (long)floor(y + 0.5); }
     long mn = word == 1 ? -128 : -32768, mx = word == 1 ? 127 : 32767;
@@ -231,7 +234,7 @@ bool VfRun::read_explained_at(Handle &H, const OpRes &r, bool is_int, const Rec 
     int frame = word * nch; if (r.ret % frame) return false; int frames = (int)(r.ret / frame); if (frames > avail) return false;
     std::vector<const float *> ch(nch); for (int c = 0; c < nch; c++) ch[c] = ref[c].data();
     std::vector<uint8_t> lo, hi; expected_int(ch.data(), nch, off, frames, word, sg, be, lo, hi, op.s("kind") == "read_filter" ? 0.5f : 1.f);
-    for (size_t i = 0; i < lo.size(); i += word) { bool a = !memcmp(&r.buf[i], &lo[i], word), b = !memcmp(&r.buf[i], &hi[i], word); if (!a && !b) return false; }
+    for (size_t i = 0; i < lo.size(); i += word) { if (std::isnan(ch[(i / (size_t)word) % (size_t)nch][off + (int64_t)(i / (size_t)frame)])) continue; bool a = !memcmp(&r.buf[i], &lo[i], word), b = !memcmp(&r.buf[i], &hi[i], word); if (!a && !b) return false; }
     return true;
   }
   if (r.nch != nch || r.ret > avail) return false;
@@ -321,6 +324,7 @@ void VfRun::oracle_read(Handle &H, const OpRes &r, bool is_int, const Rec &op) {
       auto &ref = refpcm(link, hr); std::vector<const float *> ch(nch); for (int c = 0; c < nch; c++) ch[c] = ref[c].data();
       std::vector<uint8_t> lo, hi; expected_int(ch.data(), nch, off, frames, word, sg, be, lo, hi, op.s("kind") == "read_filter" ? 0.5f : 1.f);
       for (size_t i = 0; i < lo.size(); i++) if (r.buf[i] != lo[i] && r.buf[i] != hi[i]) {
+        if (std::isnan(ch[(i / (size_t)word) % (size_t)nch][off + (int64_t)(i / (size_t)(word * nch))])) continue;   // crafted streams can decode to NaN (0 * inf in a floor-0 curve)
         // a tie affects both bytes of a 16-bit word; re-check word-wise
         size_t w0 = word == 2 ? (i & ~(size_t)1) : i; bool okw = false;
         if (word == 2) okw = (r.buf[w0] == lo[w0] && r.buf[w0 + 1] == lo[w0 + 1]) || (r.buf[w0] == hi[w0] && r.buf[w0 + 1] == hi[w0 + 1]);
@@ -504,10 +508,13 @@ void VfRun::halfrate_op(Handle &H, const Rec &op) {
     if (flag) { check(ret != 0, P, "ov_halfrate", "not-refused-with-64-sample-blocks", fmt("ret=%ld", ret)); g_stats.inc("probe.halfrate_refused"); }
     else check(ret == 0, P, "ov_halfrate", "toggle-failed", fmt("flag=0 ret=%ld", ret));
     check(p == 0, P, "ov_halfrate", "flag-set-after-refusal", fmt("halfrate_p=%d", p));
+    // on a stream whose positions are exact (genuine 64-sample blocks, not a rewritten header) the clause is also checked directly:
+    // "leaving full-rate decoding intact at the same position" -- the position here, the audio by the reads that follow
+    if (!inexact() && !H.io_dirty && t0 >= 0 && t0 <= sr.total) { check(t1 == t0, P, "ov_halfrate", flag ? "refusal-moved-position" : "toggle-moved-position", fmt("%lld->%lld flag=%d", (long long)t0, (long long)t1, flag)); g_stats.inc("probe.halfrate_refusal_position_exact"); }
     H.hr = 0; return;
   }
   // a streaming handle only knows the link it is in
-  bool must_refuse = H.seekable ? sr.has_bs64 : (H.lin_link < sr.nlinks && sr.ps.links[std::min(H.lin_link, sr.nlinks - 1)]->r.bs64);
+  bool must_refuse = H.seekable ? sr.has_bs64 : (H.lin_link < sr.nlinks && sr.ps.links[std::min(H.lin_link, sr.nlinks - 1)]->bs0 <= 64);
   if (flag && must_refuse) {
     check(ret != 0, P, "ov_halfrate", "not-refused-with-64-sample-blocks", fmt("ret=%ld", ret));
     check(p == 0, P, "ov_halfrate", "flag-set-after-refusal", fmt("halfrate_p=%d", p));
